@@ -317,7 +317,7 @@ own_verdicts(const std::string& pattern, std::vector<char>& mv)
 }
 
 static void
-op_select(uint32_t kind, bool is_null, const std::string& bytes, size_t len)
+op_select(uint32_t kind, bool is_null, const std::string& bytes, size_t len, bool with_history = false)
 {
     // exactly `len` addressable bytes, so that any read past bytes_of_name is an ASan report
     char* buf = 0;
@@ -327,6 +327,17 @@ op_select(uint32_t kind, bool is_null, const std::string& bytes, size_t len)
         len = bytes.size();
     }
     DeviceIdentifier out;
+    if (with_history) {
+        // the answer must not depend on earlier selections: a selection that matches some device of every kind, then this very
+        // call once, and only then the call whose result is reported
+        DeviceIdentifier scratch;
+        for (uint32_t k2 = 0; k2 < 7; ++k2) {
+            sentinel(scratch);
+            (void)c12_select(&g_dm, k2, ".*", 2, &scratch);
+        }
+        sentinel(scratch);
+        (void)c12_select(&g_dm, kind, buf, len, &scratch);
+    }
     sentinel(out);
     int st = (int)c12_select(&g_dm, kind, buf, len, &out);
     emit('A', show_status(st, out));
@@ -583,7 +594,7 @@ main(int argc, char** argv)
             bool dflt = op == "default";
             ChildOut r = run_child([&] { op_first((uint32_t)k, dflt); }, watchdog_ms);
             print_child(r, false);
-        } else if (op == "sel") {
+        } else if (op == "sel" || op == "selh") {
             unsigned long long k = 0, len = 0;
             std::string h;
             is >> k >> h >> len;
@@ -593,7 +604,8 @@ main(int argc, char** argv)
                 printf("bad-op\n");
                 continue;
             }
-            ChildOut r = run_child([&] { op_select((uint32_t)k, is_null, bytes, (size_t)len); }, watchdog_ms);
+            bool hist = op == "selh";
+            ChildOut r = run_child([&] { op_select((uint32_t)k, is_null, bytes, (size_t)len, hist); }, watchdog_ms);
             print_child(r, true);
         } else if (op == "destroy") {
             int st = (int)device_manager_destroy(&g_dm);
